@@ -23,6 +23,11 @@ def gen_plan(rng, prop):
         s["size"] = wchoice(rng, [(1, 20), (2, 20), (3, 20), (4, 15), (5, 15), (6, 10)])
     mode = wchoice(rng, [("perop", 35), ("tape", 50), ("once", 15)])
     T = wchoice(rng, [(rng.randint(2, 10), 30), (rng.randint(10, 30), 40), (rng.randint(30, 80), 30)])
+    if rng.random() < 0.05:
+        # larger capacities and long streams (block-wise / amortised code paths only show after many evictions)
+        if "size" in s:
+            s["size"] = rng.randint(8, 40)
+        T = rng.randint(100, 400)
     ops = []
     burst = None
     for i in range(T):
